@@ -159,6 +159,19 @@ def first_failure(script, W_total_calls=None):
     return None
 
 
+class GenS(proggen.Gen):
+    """proggen.Gen plus loops over the characters of a string (plain, with metacharacters, or a captured safe one)"""
+
+    def stmt(self, env, d, in_loop):
+        r = self.rng
+        if d > 0 and r.chance(1, 10):
+            v = self.fresh("c")
+            env2 = dict(env)
+            env2[v] = "str"
+            return ("for", v, self.str_expr(env, 1), None, self.body(env2, d - 1, True), None, False)
+        return proggen.Gen.stmt(self, env, d, in_loop)
+
+
 class Prog:
     def __init__(self, templates, main, entry, ctx, undefined="lenient", ast=None, label="", formatter=False, objects=False):
         self.templates, self.main, self.entry, self.ctx, self.undefined, self.ast, self.label = templates, main, entry, ctx, undefined, ast, label
@@ -191,7 +204,7 @@ def gen_programs(chk):
     for j in range(n):
         html = j % 2 == 1
         inc = j % 5 == 0
-        g = proggen.Gen(rng, {"autoescape": html and j % 4 == 1, "strings_with_meta": html, "include": inc}, max_depth=2 + rng.below(3))
+        g = GenS(rng, {"autoescape": html and j % 4 == 1, "strings_with_meta": html, "include": inc}, max_depth=2 + rng.below(3))
         ctx, kinds = proggen.default_context(rng)
         if html:
             ctx["s"] = rng.choice(["<b>", "a&b", "it's \"q\"", "x/y", "plain"])
